@@ -1,6 +1,7 @@
 import N0Verif.Proofs.Compare
 import N0Verif.Proofs.CompareFaithful
 import N0Verif.Proofs.ComparePerm
+import N0Verif.Proofs.CompareTransform
 /-!
 A FRAME statement for the compare engine: what do the class tags (`n0dict`/`n0list` against plain `dict`/`list`)
 of the nodes BELOW the roots contribute to the result?
@@ -12,7 +13,8 @@ matter.  They do, in exactly three places (the counter-examples at the end):
   list) and insists on an `n0list` partner (`TypeError`);
 * `n0list.compare` hands a record of the other list to `n0dict.compare`, which insists on an `n0dict` (`TypeError`).
 
-Positive statement (`frame_compareTop`, no `transform`): if below the roots all dictionaries carry one tag `cd`
+Positive statement (`frame_compareTop`; `transform` functions that do not look at containers: `LeafTransform`,
+in particular no `transform`): if below the roots all dictionaries carry one tag `cd`
 and all lists one tag `cl` (what the loaders produce: `n0dict(json_text)` gives `cd = n0`, `cl = plain`;
 `convert_recursively` gives `n0`/`n0`), then the run on `(a, b)` and the run on the recursively converted trees
 `(toN0 a, toN0 b)` return the same result up to the conversion of the values shown — unless the first run stops
@@ -181,20 +183,75 @@ theorem frame_lookup (k : Str) : ∀ kvs : List (Str × Val),
 theorem frame_hasKey (k : Str) (kvs : List (Str × Val)) : hasKey k (toN0K kvs) = hasKey k kvs := by
   simp [hasKey, frame_lookup]
 
-theorem frame_recordKey {cfg : Cfg} (htr : cfg.tr = []) (p : Path) (kvs : List (Str × Val)) :
+/-- a leaf function (identity on containers, scalars to scalars, `None` to a scalar or `None`) commutes with the
+conversion -/
+theorem frame_commute {f : Val → Val} (hf : TrLeafFn f) (x : Val) : f (toN0 x) = toN0 (f x) := by
+  cases x with
+  | list c xs => simp only [toN0, hf.list]
+  | dict c kvs => simp only [toN0, hf.dict]
+  | none =>
+    simp only [toN0]
+    rcases hf.none with h | h
+    · exact (frame_toN0_scalar h).symm
+    · rw [h]; rfl
+  | bool b => simp only [toN0]; exact (frame_toN0_scalar (hf.scalar _ rfl)).symm
+  | int i => simp only [toN0]; exact (frame_toN0_scalar (hf.scalar _ rfl)).symm
+  | flt r => simp only [toN0]; exact (frame_toN0_scalar (hf.scalar _ rfl)).symm
+  | str s => simp only [toN0]; exact (frame_toN0_scalar (hf.scalar _ rfl)).symm
+
+theorem frame_tags_leafFn {f : Val → Val} (hf : TrLeafFn f) {cd cl : Cls} {x : Val} (hx : tagsBy cd cl x = true) :
+    tagsBy cd cl (f x) = true := by
+  have hsc : ∀ z : Val, isPyScalar z = true → tagsBy cd cl z = true := by
+    intro z hz; cases z <;> simp_all [isPyScalar, tagsBy]
+  cases x with
+  | list c xs => rw [hf.list]; exact hx
+  | dict c kvs => rw [hf.dict]; exact hx
+  | none =>
+    rcases hf.none with h | h
+    · exact hsc _ h
+    · rw [h]; rfl
+  | bool b => exact hsc _ (hf.scalar _ rfl)
+  | int i => exact hsc _ (hf.scalar _ rfl)
+  | flt r => exact hsc _ (hf.scalar _ rfl)
+  | str s => exact hsc _ (hf.scalar _ rfl)
+
+theorem frame_leafFn_of_mem {cfg : Cfg} (hl : LeafTransform cfg) {t : Tr} (ht : t ∈ cfg.tr) : TrLeafFn t.f :=
+  ⟨(hl t ht).1, (hl t ht).2.1, (hl t ht).2.2.1, (hl t ht).2.2.2⟩
+
+theorem frame_recordKey {cfg : Cfg} (hl : LeafTransform cfg) (p : Path) (kvs : List (Str × Val)) :
     ∀ (fs : List Str) (acc : Str), recordKey cfg p (toN0K kvs) fs acc = recordKey cfg p kvs fs acc
   | [], acc => by simp [recordKey]
   | f :: fs, acc => by
-    simp only [recordKey, htr, List.map_nil, xpathMatchFrom, frame_lookup]
+    simp only [recordKey, frame_lookup]
     cases Val.lookup f kvs with
-    | none => exact frame_recordKey htr p kvs fs acc
+    | none =>
+      simp only [Option.map_none]
+      exact frame_recordKey hl p kvs fs acc
     | some v =>
-      simp only [Option.map_some, frame_pyStr]
-      exact frame_recordKey htr p kvs fs _
+      simp only [Option.map_some]
+      cases hm : xpathMatchFrom (render p ++ '/' :: f) 0 (cfg.tr.map (·.pat)) with
+      | zero =>
+        simp only [frame_pyStr]
+        exact frame_recordKey hl p kvs fs _
+      | succ i =>
+        simp only
+        cases ht : cfg.tr[i]? with
+        | none => rfl
+        | some t =>
+          simp only
+          rw [frame_commute (frame_leafFn_of_mem hl (List.mem_of_getElem? ht)) v]
+          cases hz : t.f v with
+          | str s => simp only [toN0]; exact frame_recordKey hl p kvs fs _
+          | none => rfl
+          | bool b => rfl
+          | int n => rfl
+          | flt r => rfl
+          | list c xs => rfl
+          | dict c kvs' => rfl
 
-theorem frame_keyOf {cfg : Cfg} (htr : cfg.tr = []) (p : Path) (x : Val) : keyOf cfg p (toN0 x) = keyOf cfg p x := by
+theorem frame_keyOf {cfg : Cfg} (hl : LeafTransform cfg) (p : Path) (x : Val) : keyOf cfg p (toN0 x) = keyOf cfg p x := by
   cases x with
-  | dict c kvs => simp only [toN0, keyOf, frame_recordKey htr]
+  | dict c kvs => simp only [toN0, keyOf, frame_recordKey hl]
   | list c xs =>
     have := frame_pyStr (.list c xs)
     simp only [toN0] at this ⊢
@@ -205,10 +262,10 @@ theorem frame_keyOf {cfg : Cfg} (htr : cfg.tr = []) (p : Path) (x : Val) : keyOf
   | flt f => rfl
   | str s => rfl
 
-theorem frame_keysOf {cfg : Cfg} (htr : cfg.tr = []) (p : Path) : ∀ xs : List Val,
+theorem frame_keysOf {cfg : Cfg} (hl : LeafTransform cfg) (p : Path) : ∀ xs : List Val,
     keysOf cfg p (toN0L xs) = keysOf cfg p xs
   | [] => rfl
-  | x :: xs => by simp only [toN0L, keysOf, frame_keyOf htr p x, frame_keysOf htr p xs]
+  | x :: xs => by simp only [toN0L, keysOf, frame_keyOf hl p x, frame_keysOf hl p xs]
 
 /-- the remaining-lists with converted values -/
 def keMap (l : List KE) : List KE := l.map (fun e => (e.1, e.2.1, toN0 e.2.2))
@@ -283,59 +340,69 @@ theorem frame_dictTail (cfg : Cfg) (p : Path) (sa oa : Val) (skvs okvs : List (S
   · split <;> simp
   · split <;> simp
 
-theorem frame_classifyItem {cfg : Cfg} (htr : cfg.tr = []) {cd cl : Cls} (p pne pdt : Path) (sa oa : Val)
+theorem frame_classifyItem {cfg : Cfg} (hl : LeafTransform cfg) {cd cl : Cls} (p pne pdt : Path) (sa oa : Val)
     {x y : Val} (hx : tagsBy cd cl x = true) (hy : tagsBy cd cl y = true) :
     classifyItem cfg p pne pdt (toN0 sa) (toN0 oa) (toN0 x) (toN0 y) =
       (classifyItem cfg p pne pdt sa oa x y).mapV toN0 := by
-  have hty := frame_tyOf_iff hx hy
+  have hf := tr_leafFn_transformAt hl p
+  have hsv := frame_tags_leafFn hf hx
+  have hov := frame_tags_leafFn hf hy
   unfold classifyItem
-  simp only [transformAt_noTr htr, id]
-  by_cases ht : tyOf x = tyOf y
-  · have ht' : tyOf (toN0 x) = tyOf (toN0 y) := hty.2 ht
-    by_cases hs : isPyScalar x = true
+  simp only [frame_commute hf x, frame_commute hf y]
+  generalize transformAt cfg p x = sv at hsv
+  generalize transformAt cfg p y = ov at hov
+  have hty := frame_tyOf_iff hsv hov
+  by_cases ht : tyOf sv = tyOf ov
+  · have ht' : tyOf (toN0 sv) = tyOf (toN0 ov) := hty.2 ht
+    by_cases hs : isPyScalar sv = true
     · have hx0 := frame_toN0_scalar hs
-      have hs' : isPyScalar y = true := by rw [← tyOf_scalar_eq ht]; exact hs
+      have hs' : isPyScalar ov = true := by rw [← tyOf_scalar_eq ht]; exact hs
       have hy0 := frame_toN0_scalar hs'
       rw [hx0, hy0]
-      by_cases hxy : x = y
+      by_cases hxy : sv = ov
       · subst hxy
         by_cases he : cfg.fl.equal = true <;> simp [hs, he, Act.mapV, Res.mapV, Res.empty]
-      · simp [ht, hs, hxy, Act.mapV, Res.mapV, hx0, hy0]
-    · have hs2 : isPyScalar (toN0 x) = false := by rw [frame_isPyScalar]; simpa using hs
+      · simp [ht, hs, hxy, Act.mapV, Res.mapV]
+    · have hs2 : isPyScalar (toN0 sv) = false := by rw [frame_isPyScalar]; simpa using hs
       simp [ht, ht', hs, hs2, Act.mapV]
-  · have ht' : ¬ tyOf (toN0 x) = tyOf (toN0 y) := fun h => ht (hty.1 h)
-    by_cases hf : cfg.fl.types = true <;> simp [ht, ht', hf, Act.mapV, Res.mapV]
+  · have ht' : ¬ tyOf (toN0 sv) = tyOf (toN0 ov) := fun h => ht (hty.1 h)
+    by_cases hf' : cfg.fl.types = true <;> simp [ht, ht', hf', Act.mapV, Res.mapV]
 
-theorem frame_classifyEntry {cfg : Cfg} (htr : cfg.tr = []) {cd cl : Cls} (full : Path)
+theorem frame_classifyEntry {cfg : Cfg} (hl : LeafTransform cfg) {cd cl : Cls} (full : Path)
     {x y : Val} (hx : tagsBy cd cl x = true) (hy : tagsBy cd cl y = true) :
     classifyEntry cfg full (toN0 x) (toN0 y) = (classifyEntry cfg full x y).mapV toN0 := by
-  have hty := frame_tyOf_iff hx hy
+  have hf := tr_leafFn_transformAt hl full
+  have hsv := frame_tags_leafFn hf hx
+  have hov := frame_tags_leafFn hf hy
   unfold classifyEntry
   by_cases hex : excluded cfg full = true
   · simp [hex, Act.mapV, Res.mapV, Res.empty]
-  simp only [hex, if_false, transformAt_noTr htr, id]
-  by_cases ht : tyOf x = tyOf y
-  · have ht' : tyOf (toN0 x) = tyOf (toN0 y) := hty.2 ht
-    by_cases hs : isPyScalar x = true
+  simp only [hex, if_false, frame_commute hf x, frame_commute hf y]
+  generalize transformAt cfg full x = sv at hsv
+  generalize transformAt cfg full y = ov at hov
+  have hty := frame_tyOf_iff hsv hov
+  by_cases ht : tyOf sv = tyOf ov
+  · have ht' : tyOf (toN0 sv) = tyOf (toN0 ov) := hty.2 ht
+    by_cases hs : isPyScalar sv = true
     · have hx0 := frame_toN0_scalar hs
-      have hs' : isPyScalar y = true := by rw [← tyOf_scalar_eq ht]; exact hs
+      have hs' : isPyScalar ov = true := by rw [← tyOf_scalar_eq ht]; exact hs
       have hy0 := frame_toN0_scalar hs'
       rw [hx0, hy0]
-      by_cases hxy : x = y
+      by_cases hxy : sv = ov
       · subst hxy
         simp [hs, Act.mapV, Res.mapV, Res.empty]
-      · by_cases ho : onlyOk cfg full = true <;> simp [ht, hs, hxy, ho, Act.mapV, Res.mapV, Res.empty, hx0, hy0]
-    · have hs2 : isPyScalar (toN0 x) = false := by rw [frame_isPyScalar]; simpa using hs
+      · by_cases ho : onlyOk cfg full = true <;> simp [ht, hs, hxy, ho, Act.mapV, Res.mapV, Res.empty]
+    · have hs2 : isPyScalar (toN0 sv) = false := by rw [frame_isPyScalar]; simpa using hs
       simp [ht, ht', hs, hs2, Act.mapV]
-  · have ht' : ¬ tyOf (toN0 x) = tyOf (toN0 y) := fun h => ht (hty.1 h)
-    by_cases hf : cfg.fl.types = true <;> by_cases ho : onlyOk cfg full = true <;>
-      simp [ht, ht', hf, ho, Act.mapV, Res.mapV, Res.empty]
+  · have ht' : ¬ tyOf (toN0 sv) = tyOf (toN0 ov) := fun h => ht (hty.1 h)
+    by_cases hf' : cfg.fl.types = true <;> by_cases ho : onlyOk cfg full = true <;>
+      simp [ht, ht', hf', ho, Act.mapV, Res.mapV, Res.empty]
 
-theorem frame_itemRes {cfg : Cfg} (htr : cfg.tr = []) {cd cl : Cls} {T : Prop} (p pne pdt : Path) (sa oa : Val)
+theorem frame_itemRes {cfg : Cfg} (hl : LeafTransform cfg) {cd cl : Cls} {T : Prop} (p pne pdt : Path) (sa oa : Val)
     {x y : Val} (hx : tagsBy cd cl x = true) (hy : tagsBy cd cl y = true)
     (hsub : FrameRel T (sub cfg .item pne x y) (sub cfg .item pne (toN0 x) (toN0 y))) :
     FrameRel T (itemRes cfg p pne pdt sa oa x y) (itemRes cfg p pne pdt (toN0 sa) (toN0 oa) (toN0 x) (toN0 y)) := by
-  simp only [itemRes, frame_classifyItem htr p pne pdt sa oa hx hy]
+  simp only [itemRes, frame_classifyItem hl p pne pdt sa oa hx hy]
   cases classifyItem cfg p pne pdt sa oa x y with
   | emit r s => exact frame_ok T r
   | descend => exact hsub
@@ -370,7 +437,7 @@ theorem mkEntries_mem_val : ∀ (ks : List Str) (xs : List Val) (i : Nat), ∀ e
 /-! ### the four walks -/
 
 mutual
-theorem frame_sub (cfg : Cfg) (htr : cfg.tr = []) (cd cl : Cls) (site : Site) (p : Path) (v w : Val)
+theorem frame_sub (cfg : Cfg) (hl : LeafTransform cfg) (cd cl : Cls) (site : Site) (p : Path) (v w : Val)
     (hv : tagsKids cd cl v = true) (hw : tagsKids cd cl w = true)
     (hs : site = .item → tagsBy cd cl v = true ∧ tagsBy cd cl w = true) :
     FrameRel (TagErr cfg cd cl) (sub cfg site p v w) (sub cfg site p (toN0 v) (toN0 w)) :=
@@ -392,7 +459,7 @@ theorem frame_sub (cfg : Cfg) (htr : cfg.tr = []) (cd cl : Cls) (site : Site) (p
             simp [sub, h1.1, h1.2, hcl]
           rw [this]
           exact Or.inr ⟨Or.inl ⟨h1.2, hcl⟩, Or.inl rfl⟩
-        · have ih := frame_directWalk cfg htr cd cl p (.list .n0 xs) (.list .n0 ys) 0 xs ys hv hw
+        · have ih := frame_directWalk cfg hl cd cl p (.list .n0 xs) (.list .n0 ys) 0 xs ys hv hw
           simp only [toN0] at ih
           by_cases hex : excluded cfg p = true
           · simp [sub, h1.1, h1.2, hex, hcl, FrameRel, mapV_empty]
@@ -406,18 +473,18 @@ theorem frame_sub (cfg : Cfg) (htr : cfg.tr = []) (cd cl : Cls) (site : Site) (p
         · simp [hex, FrameRel, mapV_empty]
         simp only [hex, if_false]
         by_cases hd : cfg.direct = true
-        · have ih := frame_directWalk cfg htr cd cl p (.list .n0 xs) (.list .n0 ys) 0 xs ys hv hw
+        · have ih := frame_directWalk cfg hl cd cl p (.list .n0 xs) (.list .n0 ys) 0 xs ys hv hw
           simp only [toN0] at ih
           simp only [hd, if_true]
           exact ih
-        · simp only [hd, if_false, frame_keysOf htr]
+        · simp only [hd, if_false, frame_keysOf hl]
           cases hks : keysOf cfg p xs with
           | error e => exact frame_err _ e
           | ok ks =>
             cases hko : keysOf cfg p ys with
             | error e => exact frame_err _ e
             | ok ko =>
-              have ih := frame_keyedWalk cfg htr cd cl p (.list .n0 xs) (.list .n0 ys) 0 xs ks (mkEntries 0 ks xs)
+              have ih := frame_keyedWalk cfg hl cd cl p (.list .n0 xs) (.list .n0 ys) 0 xs ks (mkEntries 0 ks xs)
                 (mkEntries 0 ko ys) hv (fun e he => tagsByL_mem ys _ hw (mkEntries_mem_val ko ys 0 e he))
               simp only [toN0] at ih
               simp only [frame_mkEntries]
@@ -428,7 +495,7 @@ theorem frame_sub (cfg : Cfg) (htr : cfg.tr = []) (cd cl : Cls) (site : Site) (p
     | dict c' kvs' =>
       simp only [tagsKids] at hv hw
       simp only [toN0]
-      have ih := frame_dictWalk cfg htr cd cl p (.dict .n0 kvs) (.dict .n0 kvs') kvs kvs' true kvs hv hw
+      have ih := frame_dictWalk cfg hl cd cl p (.dict .n0 kvs) (.dict .n0 kvs') kvs kvs' true kvs hv hw
       simp only [toN0] at ih
       by_cases h1 : site = .item ∧ cfg.direct = false
       · obtain ⟨_, hc'⟩ := hs h1.1
@@ -454,7 +521,7 @@ theorem frame_sub (cfg : Cfg) (htr : cfg.tr = []) (cd cl : Cls) (site : Site) (p
   | .str _, w, _, _, _ => by simp [sub, toN0, FrameRel]
 termination_by structural v
 
-theorem frame_dictWalk (cfg : Cfg) (htr : cfg.tr = []) (cd cl : Cls) (p : Path) (sa oa : Val)
+theorem frame_dictWalk (cfg : Cfg) (hl : LeafTransform cfg) (cd cl : Cls) (p : Path) (sa oa : Val)
     (skvs okvs : List (Str × Val)) (still : Bool) (kvs : List (Str × Val))
     (hk : tagsByK cd cl kvs = true) (ho : tagsByK cd cl okvs = true) :
     FrameRel (TagErr cfg cd cl) (dictWalk cfg p sa oa skvs okvs still kvs)
@@ -467,26 +534,26 @@ theorem frame_dictWalk (cfg : Cfg) (htr : cfg.tr = []) (cd cl : Cls) (p : Path) 
     simp only [tagsByK, Bool.and_eq_true] at hk
     simp only [toN0K]
     rw [dictWalk_cons, dictWalk_cons, frame_lookup]
-    cases hl : Val.lookup k okvs with
+    cases hlk : Val.lookup k okvs with
     | none =>
       simp only [Option.map_none]
-      exact frame_dictWalk cfg htr cd cl p sa oa skvs okvs still rest hk.2 ho
+      exact frame_dictWalk cfg hl cd cl p sa oa skvs okvs still rest hk.2 ho
     | some w =>
-      have hw := tagsByK_lookup okvs k w ho hl
-      simp only [Option.map_some, frame_classifyEntry htr (p ++ [.key k]) hk.1 hw]
+      have hw := tagsByK_lookup okvs k w ho hlk
+      simp only [Option.map_some, frame_classifyEntry hl (p ++ [.key k]) hk.1 hw]
       cases classifyEntry cfg (p ++ [.key k]) v w with
       | emit r s =>
         simp only [Act.mapV]
-        exact frame_seqR (frame_ok _ r) (frame_dictWalk cfg htr cd cl p sa oa skvs okvs (still && s) rest hk.2 ho)
+        exact frame_seqR (frame_ok _ r) (frame_dictWalk cfg hl cd cl p sa oa skvs okvs (still && s) rest hk.2 ho)
       | descend =>
         simp only [Act.mapV]
         exact frame_seqR
-          (frame_sub cfg htr cd cl .entry (p ++ [.key k]) v w (tagsKids_of_tagsBy hk.1) (tagsKids_of_tagsBy hw)
+          (frame_sub cfg hl cd cl .entry (p ++ [.key k]) v w (tagsKids_of_tagsBy hk.1) (tagsKids_of_tagsBy hw)
             (fun h => by cases h))
-          (frame_dictWalk cfg htr cd cl p sa oa skvs okvs still rest hk.2 ho)
+          (frame_dictWalk cfg hl cd cl p sa oa skvs okvs still rest hk.2 ho)
 termination_by structural kvs
 
-theorem frame_directWalk (cfg : Cfg) (htr : cfg.tr = []) (cd cl : Cls) (p : Path) (sa oa : Val) (i : Nat)
+theorem frame_directWalk (cfg : Cfg) (hl : LeafTransform cfg) (cd cl : Cls) (p : Path) (sa oa : Val) (i : Nat)
     (xs ys : List Val) (hx : tagsByL cd cl xs = true) (hy : tagsByL cd cl ys = true) :
     FrameRel (TagErr cfg cd cl) (directWalk cfg p sa oa i xs ys)
       (directWalk cfg p (toN0 sa) (toN0 oa) i (toN0L xs) (toN0L ys)) :=
@@ -497,19 +564,19 @@ theorem frame_directWalk (cfg : Cfg) (htr : cfg.tr = []) (cd cl : Cls) (p : Path
     simp only [tagsByL, Bool.and_eq_true] at hx
     simp only [toN0L]
     rw [directWalk_cons_nil, directWalk_cons_nil]
-    exact frame_seqR (frame_ok _ _) (frame_directWalk cfg htr cd cl p sa oa (i + 1) xs [] hx.2 rfl)
+    exact frame_seqR (frame_ok _ _) (frame_directWalk cfg hl cd cl p sa oa (i + 1) xs [] hx.2 rfl)
   | x :: xs, y :: ys, i, hx, hy => by
     simp only [tagsByL, Bool.and_eq_true] at hx hy
     simp only [toN0L]
     rw [directWalk_cons, directWalk_cons]
     exact frame_seqR
-      (frame_itemRes htr p _ _ sa oa hx.1 hy.1
-        (frame_sub cfg htr cd cl .item (p ++ [.idx i]) x y (tagsKids_of_tagsBy hx.1) (tagsKids_of_tagsBy hy.1)
+      (frame_itemRes hl p _ _ sa oa hx.1 hy.1
+        (frame_sub cfg hl cd cl .item (p ++ [.idx i]) x y (tagsKids_of_tagsBy hx.1) (tagsKids_of_tagsBy hy.1)
           (fun _ => ⟨hx.1, hy.1⟩)))
-      (frame_directWalk cfg htr cd cl p sa oa (i + 1) xs ys hx.2 hy.2)
+      (frame_directWalk cfg hl cd cl p sa oa (i + 1) xs ys hx.2 hy.2)
 termination_by structural xs
 
-theorem frame_keyedWalk (cfg : Cfg) (htr : cfg.tr = []) (cd cl : Cls) (p : Path) (sa oa : Val) (i : Nat)
+theorem frame_keyedWalk (cfg : Cfg) (hl : LeafTransform cfg) (cd cl : Cls) (p : Path) (sa oa : Val) (i : Nat)
     (xs : List Val) (ks : List Str) (sr orr : List KE)
     (hx : tagsByL cd cl xs = true) (ho : ∀ e ∈ orr, tagsBy cd cl e.2.2 = true) :
     FrameRel (TagErr cfg cd cl) (keyedWalk cfg p sa oa i xs ks sr orr)
@@ -528,22 +595,25 @@ theorem frame_keyedWalk (cfg : Cfg) (htr : cfg.tr = []) (cd cl : Cls) (p : Path)
     cases hf : findKey k orr with
     | none =>
       simp only [Option.map_none]
-      exact frame_keyedWalk cfg htr cd cl p sa oa (i + 1) xs ks sr orr hx.2 ho
+      exact frame_keyedWalk cfg hl cd cl p sa oa (i + 1) xs ks sr orr hx.2 ho
     | some jy =>
       obtain ⟨j, y⟩ := jy
       obtain ⟨k', hmem⟩ := findKey_mem orr k j y hf
       have hy := ho _ hmem
       simp only [Option.map_some, frame_eraseKey]
       exact frame_seqR
-        (frame_itemRes htr p _ _ sa oa hx.1 hy
-          (frame_sub cfg htr cd cl .item _ x y (tagsKids_of_tagsBy hx.1) (tagsKids_of_tagsBy hy)
+        (frame_itemRes hl p _ _ sa oa hx.1 hy
+          (frame_sub cfg hl cd cl .item _ x y (tagsKids_of_tagsBy hx.1) (tagsKids_of_tagsBy hy)
             (fun _ => ⟨hx.1, hy⟩)))
-        (frame_keyedWalk cfg htr cd cl p sa oa (i + 1) xs ks (eraseKey k sr) (eraseKey k orr) hx.2
+        (frame_keyedWalk cfg hl cd cl p sa oa (i + 1) xs ks (eraseKey k sr) (eraseKey k orr) hx.2
           (fun e he => ho e (eraseKey_sub orr k e he)))
 termination_by structural xs
 end
 
 /-! ### the entry point -/
+
+theorem leafTransform_nil {cfg : Cfg} (h : cfg.tr = []) : LeafTransform cfg := by
+  intro t ht; rw [h] at ht; cases ht
 
 theorem frame_rootPair_toN0 {a b : Val} (h : RootPair a b) : RootPair (toN0 a) (toN0 b) := by
   cases a with
@@ -559,22 +629,22 @@ theorem frame_rootPair_toN0 {a b : Val} (h : RootPair a b) : RootPair (toN0 a) (
     simp [RootPair, toN0]
   | _ => simp [RootPair] at h
 
-/-- **Frame.**  No transform; roots `n0dict`/`n0dict` or `n0list`/`n0list`; below the roots every dictionary carries
+/-- **Frame.**  `LeafTransform cfg` (in particular no transform: `leafTransform_nil`); roots `n0dict`/`n0dict` or `n0list`/`n0list`; below the roots every dictionary carries
 the tag `cd` and every list the tag `cl`.  Then the run on `(a, b)` and the run on the recursively converted trees
 agree (same exception, or the same result with the shown values converted), unless the run on `(a, b)` stops with
 `AttributeError`/`TypeError` — possible only if `TagErr cfg cd cl`. -/
-theorem frame_compareTop (cfg : Cfg) (htr : cfg.tr = []) (cd cl : Cls) (a b : Val) (hr : RootPair a b)
+theorem frame_compareTop (cfg : Cfg) (hl : LeafTransform cfg) (cd cl : Cls) (a b : Val) (hr : RootPair a b)
     (ha : tagsKids cd cl a = true) (hb : tagsKids cd cl b = true) :
     FrameRel (TagErr cfg cd cl) (compareTop cfg a b) (compareTop cfg (toN0 a) (toN0 b)) := by
   rw [compareTop_eq_sub cfg a b hr, compareTop_eq_sub cfg _ _ (frame_rootPair_toN0 hr)]
-  exact frame_sub cfg htr cd cl .entry [] a b ha hb (fun h => by cases h)
+  exact frame_sub cfg hl cd cl .entry [] a b ha hb (fun h => by cases h)
 
 /-- when the walked mode never meets a plain container of the kind it checks, the run IS the run on the converted
 trees -/
-theorem frame_exact (cfg : Cfg) (htr : cfg.tr = []) (cd cl : Cls) (hT : ¬ TagErr cfg cd cl) (a b : Val)
+theorem frame_exact (cfg : Cfg) (hl : LeafTransform cfg) (cd cl : Cls) (hT : ¬ TagErr cfg cd cl) (a b : Val)
     (hr : RootPair a b) (ha : tagsKids cd cl a = true) (hb : tagsKids cd cl b = true) :
     compareTop cfg (toN0 a) (toN0 b) = (compareTop cfg a b).map (Res.mapV toN0) := by
-  have h := frame_compareTop cfg htr cd cl a b hr ha hb
+  have h := frame_compareTop cfg hl cd cl a b hr ha hb
   cases hc : compareTop cfg a b with
   | ok r =>
     rw [hc] at h
@@ -588,22 +658,22 @@ theorem frame_exact (cfg : Cfg) (htr : cfg.tr = []) (cd cl : Cls) (hT : ¬ TagEr
     · exact absurd h.1 hT
 
 /-- `compare()` on trees loaded by `n0dict(json_text)`: `n0dict`s everywhere, plain lists -/
-theorem frame_keyed_loaded (cfg : Cfg) (htr : cfg.tr = []) (hd : cfg.direct = false) (a b : Val)
+theorem frame_keyed_loaded (cfg : Cfg) (hl : LeafTransform cfg) (hd : cfg.direct = false) (a b : Val)
     (hr : RootPair a b) (ha : tagsKids .n0 .plain a = true) (hb : tagsKids .n0 .plain b = true) :
     compareTop cfg (toN0 a) (toN0 b) = (compareTop cfg a b).map (Res.mapV toN0) :=
-  frame_exact cfg htr .n0 .plain (by simp [TagErr, hd]) a b hr ha hb
+  frame_exact cfg hl .n0 .plain (by simp [TagErr, hd]) a b hr ha hb
 
 /-- `direct_compare` on trees with `n0list`s and plain dictionaries -/
-theorem frame_direct_plainDicts (cfg : Cfg) (htr : cfg.tr = []) (hd : cfg.direct = true) (a b : Val)
+theorem frame_direct_plainDicts (cfg : Cfg) (hl : LeafTransform cfg) (hd : cfg.direct = true) (a b : Val)
     (hr : RootPair a b) (ha : tagsKids .plain .n0 a = true) (hb : tagsKids .plain .n0 b = true) :
     compareTop cfg (toN0 a) (toN0 b) = (compareTop cfg a b).map (Res.mapV toN0) :=
-  frame_exact cfg htr .plain .n0 (by simp [TagErr, hd]) a b hr ha hb
+  frame_exact cfg hl .plain .n0 (by simp [TagErr, hd]) a b hr ha hb
 
 /-- the verdict is the verdict on the converted trees -/
-theorem frame_verdict (cfg : Cfg) (htr : cfg.tr = []) (cd cl : Cls) (hT : ¬ TagErr cfg cd cl) (a b : Val)
+theorem frame_verdict (cfg : Cfg) (hl : LeafTransform cfg) (cd cl : Cls) (hT : ¬ TagErr cfg cd cl) (a b : Val)
     (hr : RootPair a b) (ha : tagsKids cd cl a = true) (hb : tagsKids cd cl b = true) :
     verdict (compareTop cfg (toN0 a) (toN0 b)) = verdict (compareTop cfg a b) := by
-  rw [frame_exact cfg htr cd cl hT a b hr ha hb]
+  rw [frame_exact cfg hl cd cl hT a b hr ha hb]
   cases compareTop cfg a b <;> rfl
 
 /-! ### the tags DO matter: counter-examples to the unrestricted statement -/
